@@ -255,7 +255,13 @@ def run(ctx):
     edu = du_of(enc)
     ev = BitEval(enc, enc_input)
     branches = branch_blocks(enc, len_sel)
-    for n in (1, 2, 3):
+    enc_shape = any(branches.get(n_) and any(ecfg.blocks[b_]["term"]["k"] == "call" and callee_name(ecfg.blocks[b_]["term"]) == N2C for b_ in branches[n_]) for n_ in (1, 2, 3))
+    if not enc_shape:
+        # not one branch per group length each looking its sextets up (e.g. a helper that cuts the group into sextets by slice patterns,
+        # then a map-and-pad loop): the bit-level evaluation is written for the branch form only. Not decided for this shape.
+        r1.floor = 0
+        r1.note("encode_sequence is not written as one branch per group length: the sextets handed to the alphabet lookup are not decided by this rule for this shape")
+    for n in ((1, 2, 3) if enc_shape else ()):
         blocks = branches.get(n)
         if not blocks:
             r1.violate("C18|R1|len-%d|no-branch" % n, "encode_sequence has no branch for group length %d" % n, enc.file, enc.span["line"], ENC_SEQ)
@@ -373,6 +379,22 @@ def run(ctx):
                 table.append(v[1]["char"])
             else:
                 ok_eval = False
+    # the alphabet as one constant (`const ALPHABET: &[u8; 64] = b"ABC..+/"`) read by the three functions
+    from .c14 import items_mentioned
+    const_alpha = {}
+    for item_ in sorted(items_mentioned(F, ctx.inl(tfn)) | items_mentioned(F, ctx.inl(F.fns[N2C])) | items_mentioned(F, ctx.inl(F.fns[C2N]))):
+        cv_ = (F.consts.get(item_) or {}).get("v")
+        if isinstance(cv_, dict) and isinstance(cv_.get("fields"), dict) and all(isinstance(x, int) for x in cv_["fields"].values()) and len(cv_["fields"]) >= 16:
+            const_alpha[item_] = "".join(chr(cv_["fields"][k_]) for k_ in sorted(cv_["fields"], key=int) if 0 <= cv_["fields"][k_] < 0x110000)
+        elif isinstance(cv_, dict) and isinstance(cv_.get("bytes"), list):
+            const_alpha[item_] = "".join(chr(x) for x in cv_["bytes"])
+        elif isinstance(cv_, str) and len(cv_) >= 16:
+            const_alpha[item_] = cv_
+    table_item = None
+    if not table and len(const_alpha) == 1 and items_mentioned(F, ctx.inl(tfn)) & set(const_alpha):
+        table_item = next(iter(const_alpha))
+        table = list(const_alpha[table_item])
+        ok_eval = not any((callee_name(t_) or "").endswith(("::push", "::insert", "::swap", "::reverse", "::sort", "::rev", "::skip", "::filter")) for _, t_ in ctx.inl(tfn).calls())
     got = "".join(table)
     ok = ok_eval and got == RFC_ALPHABET
     r3.instance({"table": got, "entries": len(table)}, ok)
@@ -403,6 +425,17 @@ def run(ctx):
                     for val, tb in st["targets"]:
                         if val == 0 and ncfg.edge_dominates((sb, tb) if not neg else (sb, st["otherwise"]), ob):
                             gt_ok = True
+    if table_item is not None and table_item in items_mentioned(F, ctx.inl(n2c)):
+        # `ALPHABET.get(number as usize)`: Ok only on the Some edge, i.e. only for an index inside the 64 entries
+        uses_table = True
+        ng_ = guards_of(n2c)
+        for gb_, t in n2c.calls():
+            if callee_name(t) == "core::slice::<impl [T]>::get" and len(t["args"]) == 2:
+                from ..guards import optres_root as _orr
+                root_, inv_ = _orr(ndu, (t["dest"]["l"], ()))
+                some_edges = [e_ for e_, f_ in ng_.facts() if f_[0] == "variant" and f_[1] == root_ and f_[3] is (False if inv_ else True)]
+                if some_edges and all(ncfg.edges_dominate(some_edges, ob) for ob in ok_return_blocks(n2c)) and ok_return_blocks(n2c):
+                    gt_ok = len(table) == 64
     ok = uses_table and idx_ok and gt_ok
     r3.instance({"number_to_char": {"indexes_table_with_argument": idx_ok, "uses_table": uses_table, "rejects_above_63": gt_ok}}, ok)
     if not ok:
@@ -424,6 +457,16 @@ def run(ctx):
         for cc, tr, v, _ in tests_dominating(c2n, ob):
             if cc.endswith("::is_none") and tr is False:
                 miss_ok = True
+    if table_item is not None and table_item in items_mentioned(F, ctx.inl(c2n)):
+        # `ALPHABET.iter().position(|s| *s as char == c).map(|p| p as u8).ok_or_else(..)`: the value is the position of the first equal
+        # entry, a miss is an Err
+        names_ = [callee_name(t) or "" for _, t in c2n.calls()]
+        pos_cl = [x for _, t in c2n.calls() if (callee_name(t) or "").endswith("::position") for x in t.get("fn_items", []) if x in F.fns]
+        eq_only = bool(pos_cl) and all(any(st_["k"] == "assign" and st_["rv"]["k"] == "binop" and st_["rv"].get("op") == "Eq" for b_ in F.fns[x].blocks for st_ in b_["stmts"])
+                                       and not any(st_["k"] == "assign" and st_["rv"]["k"] == "binop" and st_["rv"].get("op") in ("Ne", "Lt", "Le", "Gt", "Ge") for b_ in F.fns[x].blocks for st_ in b_["stmts"]) for x in pos_cl)
+        uses_table = True
+        enum_ok = ins_ok = eq_only
+        miss_ok = any(n_.endswith(("::ok_or_else", "::ok_or")) for n_ in names_) and not any(n_.endswith(("::unwrap_or", "::unwrap_or_default", "::unwrap_or_else")) for n_ in names_)
     ok = uses_table and enum_ok and ins_ok and miss_ok
     r3.instance({"char_to_number": {"uses_table": uses_table, "enumerates": enum_ok, "value_is_enumerate_index": ins_ok, "err_on_miss": miss_ok}}, ok)
     if not ok:
